@@ -281,6 +281,8 @@ func tokenizeForSemantics(content string) []semanticToken {
 
 		if tok.Pos.Line != currentLine {
 			currentLine = tok.Pos.Line
+			// only the description of this header line is a payee
+			isPayee = false
 			if tok.Type == parser.TokenDirective {
 				inDirective = true
 				directiveType = tok.Value
